@@ -192,6 +192,35 @@ pub fn check_sinks_and_moves(h: &History, tmpdir: &str, obs: &mut Obs) -> Vec<Vi
         let ex = run_on(boxed, h, &ExecOpts::default(), &no_seq);
         cmp("Box<dyn Write + Send>", ex.build, ex.results, shared.bytes(), &mut out);
     }
+    // "in another muxer instance": the same sequence again on a thread on which earlier muxers
+    // failed at finish (sink error at one of several write calls) or were dropped unfinished
+    {
+        let runs = std::thread::scope(|sc| {
+            sc.spawn(|| {
+                let mut runs = Vec::new();
+                for k in [0usize, 1, 2, 3, 6, usize::MAX] {
+                    if k == usize::MAX {
+                        let mut cut = h.clone();
+                        cut.ops.retain(|o| !o.is_finish());
+                        let _ = run_on(Vec::<u8>::new(), &cut, &ExecOpts::default(), &no_seq);
+                    } else {
+                        let bad = RecSink::new(crate::sink::Fault::FailWrite { k, kind: k % crate::sink::KINDS.len() });
+                        let _ = run_on(bad, h, &ExecOpts::default(), &no_seq);
+                    }
+                    // the very next muxer on this thread must be unaffected
+                    let mut vec: Vec<u8> = Vec::new();
+                    let ex = run_on(&mut vec, h, &ExecOpts::default(), &no_seq);
+                    runs.push((ex, vec));
+                }
+                runs
+            })
+            .join()
+            .unwrap()
+        });
+        for (ex, bytes) in runs {
+            cmp("same thread, right after a failed or abandoned muxer", ex.build, ex.results, bytes, &mut out);
+        }
+    }
     let _ = std::fs::create_dir_all(tmpdir);
     let path = format!("{}/c17-{}-{:x}.bin", tmpdir, std::process::id(), h.hash());
     if let Ok(f) = std::fs::File::create(&path) {
